@@ -64,6 +64,7 @@ type FuncContract struct {
 	LoopAll    []Clause      // invariants that apply to every loop of the function
 	NoSafety   bool          // do not generate nil/bounds/assert/div/panic obligations (partial correctness of the stated clauses only)
 	Template   bool          // verif:methods template, instantiated for every matching method
+	Taint      bool          // generate diagnostic-content (taint) obligations
 }
 
 func (c *FuncContract) FullName() string {
@@ -104,10 +105,20 @@ type ContractSet struct {
 	Ghosts    map[string]*GhostField // "Type.field"
 	Guarded   map[string]string      // "Type.field" -> lock field name (same struct)
 	Templates []*FuncContract
+	CleanFields map[string]bool   // "pkg.Type.field": stores must be clean strings (taint obligations)
+	DirtyStrings map[string]bool  // "pkg.Type.field": string field whose content is NOT assumed to be source text
+	TaintFiles  []taintScan
+}
+
+type taintScan struct {
+	PkgPath string
+	Files   []string
+	Unit    string
+	Props   []string
 }
 
 func newContractSet() *ContractSet {
-	return &ContractSet{Funcs: map[string]*FuncContract{}, Preds: map[string]*Pred{}, SpecFuncs: map[string]*SpecFunc{}, Units: map[string][]string{}, Ghosts: map[string]*GhostField{}, Guarded: map[string]string{}}
+	return &ContractSet{Funcs: map[string]*FuncContract{}, Preds: map[string]*Pred{}, SpecFuncs: map[string]*SpecFunc{}, Units: map[string][]string{}, Ghosts: map[string]*GhostField{}, Guarded: map[string]string{}, CleanFields: map[string]bool{}, DirtyStrings: map[string]bool{}}
 }
 
 var (
@@ -232,6 +243,16 @@ func (cs *ContractSet) loadContractFile(path, pkgPath string) error {
 				}
 				i := strings.LastIndex(fs[0], ".")
 				cs.Ghosts[fs[0]] = &GhostField{Type: fs[0][:i], Name: fs[0][i+1:], Sort: fs[1], Where: where}
+			case "cleanfield":
+				for _, f := range strings.Fields(arg) {
+					cs.CleanFields[f] = true
+				}
+			case "dirtystrings":
+				for _, f := range strings.Fields(arg) {
+					cs.DirtyStrings[f] = true
+				}
+			case "taintscan":
+				cs.TaintFiles = append(cs.TaintFiles, taintScan{PkgPath: pkgPath, Files: strings.Fields(arg), Unit: curUnit, Props: curProps})
 			case "guarded":
 				fs := strings.Fields(arg)
 				if len(fs) != 2 || !strings.Contains(fs[0], ".") {
